@@ -73,6 +73,10 @@ def callable_name(func: Callable[..., Any]) -> str:
     if isinstance(func, partial):
         func = func.func
 
+    # Callable objects (instances of a class with __call__) are named after their class
+    if not hasattr(func, "__qualname__"):
+        func = type(func)
+
     if func.__module__ == "builtins":
         return func.__name__
     else:
